@@ -154,7 +154,21 @@ def verify_unit(reg, idx: SourceIndex, c: Contract, timeout_ms=None, seed=0, dis
                 for name, val in o.st.levels[st.cur].vars.items():
                     if name.startswith("g_") or name == "_warnings":
                         env[name] = val
-                if c.result is not None:
+                from .contract import MapOf
+                if isinstance(c.result, MapOf):
+                    from .objects import PyMap
+                    if not (isinstance(rv.shape, ConcS) and isinstance(rv.d, PyMap)):
+                        raise BindingLost("result is not a mapping with static keys")
+                    m = rv.d.copy()
+                    for k, sh in c.result.items():
+                        if k not in m.items:
+                            if m.default is None:
+                                raise BindingLost(f"result mapping lacks key {k!r}")
+                            m.items[k] = m.default(k)
+                        m.items[k] = V.coerce(m.items[k], sh)
+                    m.default = None
+                    rv = V.vconc(m)
+                elif c.result is not None:
                     try:
                         rv = V.coerce(eng.as_sym(rv), c.result)
                     except V.ShapeError as e:
